@@ -6,6 +6,8 @@ Client contracts respected by the generators (and ghost-checked by the models):
   fiber_signal_t            ONE waiting fiber, any number of raisers
   bounded / unbounded chan  ONE receiver (the ready_signal has one waiter), many senders
   sp channel                ONE receiver, ONE sender
+  (the receiver may mix blocking receive and *_try_receive; the channel may have been created
+   with a NULL ready_signal, in which case it spins instead of sleeping)
   multi channel             many senders, many receivers
 Every script is deadlock-free by construction for a correct implementation (as many
 receives/takes as sends/publishes; pure sender and pure receiver fibers), so a run that ends
@@ -68,6 +70,15 @@ def gen_signal(rng, tier):
 # ------------------------------------------------------------------ fiber_channel.h
 
 def gen_chan(kind):
+    """kind b / u / s.  About 60 % of the cases are the original ones (a ready_signal, the receiver
+    does one blocking `r` per message).  The rest exercise `*_try_receive` (receiver op `t`, and
+    the final drain loop `d` = try_receive + yield until everything sent has been received) mixed
+    with blocking receives, and channels created with a NULL signal (kind letter in upper case:
+    "this channel will spin").  Deadlock-freedom: the harness performs an `r` as a `t` once every
+    message of the script has been received, so a blocking receive is only entered while a
+    message is still owed by a (pure) sender.  The unbounded / sp receive of a spinning channel
+    busy-waits WITHOUT yielding, so on ONE kernel thread it would never let a sender run: those
+    cases get no blocking `r` (recorded as an observation in DESIGN.md section 10)."""
     def gen(rng, tier):
         cases = []
         for _ in range(n_cases(tier, 400, 3500)):
@@ -75,7 +86,24 @@ def gen_chan(kind):
             p2 = rng.choice([1, 1, 2]) if kind == "b" else 0
             n = rng.randrange(1, 7 if tier == "quick" else 14)
             ns = 1 if kind == "s" else rng.choice([1, 2, 2, 3])
-            fibers = [",".join(_sprinkle(rng, ["r"] * n))]
+            mode = rng.random()
+            spin = mode >= 0.80
+            if mode < 0.60:
+                rops = ["r"] * n
+            else:
+                # signal mode: always some try_receives; spin mode: a third keeps the plain script
+                if spin and rng.random() < 0.33:
+                    rops = ["r"] * n
+                else:
+                    rops = [rng.choice("rt") for _ in range(n)]
+                    for _ in range(rng.randrange(0, 3)):
+                        rops.insert(rng.randrange(len(rops) + 1), "t")
+                if spin and kind in "us" and k == 1:
+                    rops = ["t" if o == "r" else o for o in rops]
+            rops = _sprinkle(rng, rops)
+            if mode >= 0.60:
+                rops.append("d")
+            fibers = [",".join(rops)]
             v = 1
             for c in _split(rng, n, ns):
                 ops = []
@@ -83,7 +111,11 @@ def gen_chan(kind):
                     ops.append("s%d" % v)
                     v += 1
                 fibers.append(",".join(_sprinkle(rng, ops)) or "y")
-            cases.append({"args": [k, kind, p2, "|".join(fibers)], "env": _env(rng, fair=(kind == "b"))})
+            # yield-polling loops (bounded send on a full ring, the drain loop, every receive of
+            # a spinning channel) starve under strict-priority schedules: fair schedules only
+            fair = kind == "b" or mode >= 0.60
+            cases.append({"args": [k, kind.upper() if spin else kind, p2, "|".join(fibers)],
+                          "env": _env(rng, fair=fair)})
         return cases
     return gen
 
@@ -150,7 +182,7 @@ SPEC = {
             {"name": "multichan", "harness": "multichan", "model": "MultiChan", "runtime": True, "gen": gen_multichan,
              "nontrivial": lambda s: s["hist"].get("w waiters", 0) >= 1},
         ],
-        "rule": "cases = (script, kernel threads 1-3, capacity, scheduler kind+seed) from VERIF_SEED; scripts are deadlock-free by construction (as many receives as sends; pure sender / pure receiver fibers; client contracts of each channel type respected); distinct = different (harness args, sha1 of the (thread,kind,cell) access sequence); non-trivial = a fiber really went to sleep (signal: a WAITING/READY state write; multichan: the waiter list was written) or operations interleaved / a CAS failed",
+        "rule": "cases = (script, kernel threads 1-3, capacity, scheduler kind+seed) from VERIF_SEED; scripts are deadlock-free by construction (as many receives as sends; pure sender / pure receiver fibers; client contracts of each channel type respected); bounded/unbounded/sp channels: ~60% one blocking receive per message on a channel with a ready_signal, ~20% blocking receives mixed with *_try_receive and a final try_receive drain loop, ~20% channels created with a NULL signal (spin mode) with and without try_receive (a blocking receive is only entered while a message is still owed; no blocking receive on a spinning unbounded/sp channel with ONE kernel thread); distinct = different (harness args, sha1 of the (thread,kind,cell) access sequence); non-trivial = a fiber really went to sleep (signal: a WAITING/READY state write; multichan: the waiter list was written) or operations interleaved / a CAS failed",
         "trusted_base": [
             "MPSC/SPSC queues of the unbounded channels kept abstractly (ghost order + linked flags + pops), every logged head/tail/next/data value checked against it; adequacy for all interleavings is C15 (Mpsc.pop_is_next_in_order / Spsc)",
             "the multi channel's fiber mutex kept as an abstract lock (owner + counter word + hand-off event), its waiter-queue cells skipped by name; that the fiber mutex behaves like a lock is C03 (Mutex.mutual_exclusion / refines_lock)",
@@ -160,6 +192,7 @@ SPEC = {
         ],
         "assumptions": [
             "client contract: one waiting fiber per fiber_signal_t; one receiver per bounded/unbounded/sp channel; one sender per sp channel; messages non-NULL and (for the monitors) distinct",
+            "spinning (NULL-signal) unbounded / sp channel: a blocking receive on an empty channel busy-waits without yielding, so some OTHER kernel thread must be able to run the sender (the generators never block such a receiver when there is one kernel thread)",
             "64-bit high/low counters do not wrap",
         ],
     },
